@@ -63,6 +63,21 @@ pub const GOLDEN: &[&str] = &[
     "a: &x 1\n...\nb: *x\n",
     "[ ? a : b, : d ]\n",
     "k: {a: [b, {c: d}], ? e : f}\n...\n[g: h]\n",
+    // feature classes the corpus is thin on: a tab after a document marker, block scalar headers
+    // with comments, multi-line flow collections with node properties on their own line, long
+    // non-canonical numbers, a scalar that ends the input without a line break
+    "--- |\ntext\n---\t|\nmore\n...\t# end\n",
+    "plain\n---\t[b, c]\n",
+    "a: | # note\n  one\n  two\nb: >- # other\n  three\n",
+    "{ &x\n  a: b, !!str\n  c: &y\n  d, *x : e }\n",
+    "- [ &a\n    x, !t\n    y ]\n- { ? &k\n      q\n    : v }\n",
+    "n: 0000000000000000000000000000000000000000000000000000000000000000042\nm: 115792089237316195423570985008687907853269984665640564039457584007913129639936\n",
+    "- a,\n- k: b]",
+    "--- --- x\n--- ... y\n",
+    "a:\t",
+    // one tag in several spellings (shorthand, verbatim, through a declared handle) on equal texts
+    "%TAG !y! tag:yaml.org,2002:\n---\n!!int 12: a\nx: y\n!<tag:yaml.org,2002:int> 12: b\n!y!int 12: c\n? !!str 12\n: d\n? !<tag:yaml.org,2002:str> 12\n: e\n",
+    "- [!!int 7, !<tag:yaml.org,2002:int> 7, !<!int> 7, !int 7]\n- {!!bool true: 1, !<tag:yaml.org,2002:bool> true: 2, true: 3}\n",
 ];
 
 // ------------------------------------------------------------------------------------------------
@@ -164,6 +179,12 @@ pub const SOUP_TOKENS: &[&str] = &[
     // directive and tag material (added after seeded changes C01-m3 / C01-m4 / C10-m3 were missed)
     "%YAML ", "%YAML 1.", "4294967296", "9999999999", "%TAG ", "!a-b!x ", "%TAG !a-b! tag:e:\n", "%C3", "%C3%A9", "%E4%B8", "%F0", "%zz", "%C3%",
     "!e%C3%A9 ", "%YAML 1.2\r\n", "%FOO x\n", "!<", "tag:e:", "!e! ",
+    // NUL (the Input contract's end-of-input sentinel) inside content, a tab after a document marker,
+    // comments on block scalar headers, numbers far longer than any canonical form (added after the
+    // round-3 seeded changes C01-m6, C03-m6 / C05-m5, C05-m6, C19-m6 were missed)
+    "!<tag:yaml.org,2002:int> ", "!<tag:yaml.org,2002:str> ", "12: ", "!!int 12: ", "\0", "a\0b", "---\t", "...\t", "---\t|\n", "| # c\n", "> # c\r", "|2-\n", "|+ \n",
+    "0000000000000000000000000000000000000000000000000000000000000000042", "115792089237316195423570985008687907853269984665640564039457584007913129639936",
+    "0.00000000000000000000000000000000000000000000000000000000000000001", "0x00000000000000000000000000000000000000000000000000000000000000ff",
 ];
 
 pub fn soup_strategy() -> impl Strategy<Value = Vec<&'static str>> {
@@ -175,6 +196,9 @@ pub const LINE_BODIES: &[&str] = &[
     "\"multi", "line\"", "'sq", "it''s'", "| ", "|-", ">", ">+", "|2", "text", "more text", "# c", "", "", "  ", "---", "...", "--- x",
     "%TAG !e! tag:e:", "%YAML 1.2", "&a", "&a k: v", "*a", "*a : v", "!t", "!!str s", "!e!x v", "k: [a,", "b]", "k: \"q", "k: |", "k: >-",
     "- |", "- &a x", "- *a", "? |", "a: b: c", "\"k\": v", "'k': v", "k: v # c", "k:\tv", "-\tx", "é: 中", ", x", "x ,", "k : v", "[", "{",
+    "---\t|", "...\t# c", "---\tx", "a\0b", "k: | # note", "- > # note", "k: |2-", "&a", "!!str",
+    "!!int 12: a", "!<tag:yaml.org,2002:int> 12: b", "? !!str 12", "!<tag:yaml.org,2002:str> 12: c", "!!int 12: d",
+    "k: 0000000000000000000000000000000000000000000000000000000000000000042", "- 115792089237316195423570985008687907853269984665640564039457584007913129639936",
 ];
 
 pub fn lines_strategy() -> impl Strategy<Value = Vec<(u8, &'static str)>> {
@@ -219,7 +243,7 @@ pub fn mut_strategy(ndocs: usize) -> impl Strategy<Value = (usize, usize, Vec<Mu
     (
         0..ndocs,
         0..ndocs,
-        proptest::collection::vec((0u8..9, any::<u16>(), any::<u8>()).prop_map(|(kind, pos, arg)| MutOp { kind, pos, arg }), 1..6),
+        proptest::collection::vec((0u8..13, any::<u16>(), any::<u8>()).prop_map(|(kind, pos, arg)| MutOp { kind, pos, arg }), 1..6),
     )
 }
 
@@ -300,6 +324,39 @@ pub fn apply_mutations(base: &str, other: &str, ops: &[MutOp]) -> String {
                 let i = pick(op.pos, n);
                 cur.truncate(i);
             }
+            9 => {
+                // turn the blank at or after the position into a tab (`--- x` -> `---\tx`, `k: v` -> `k:\tv`)
+                if n > 0 {
+                    let i = pick(op.pos, n - 1);
+                    if let Some(k) = (i..n).find(|k| cur[*k] == ' ') {
+                        cur[k] = '\t';
+                    }
+                }
+            }
+            10 => {
+                // the whole document in another line-break style
+                let s: String = cur.iter().collect();
+                let s = if op.arg % 2 == 0 { s.replace('\n', "\r\n") } else { s.replace('\n', "\r") };
+                cur = s.chars().collect();
+            }
+            11 => {
+                // insert a character that is special to the scanner or to an input back-end
+                const SPECIAL: [char; 12] = ['\0', '\r', '\u{85}', '\u{2028}', '\u{feff}', '\u{7f}', '\u{1}', 'é', '😀', '\u{a0}', '\u{d7ff}', '\u{10ffff}'];
+                let i = pick(op.pos, n);
+                cur.insert(i, SPECIAL[(op.arg as usize * SPECIAL.len()) >> 8]);
+            }
+            12 => {
+                // break the line at the blank at or after the position and indent the rest
+                if n > 0 {
+                    let i = pick(op.pos, n - 1);
+                    if let Some(k) = (i..n).find(|k| cur[*k] == ' ') {
+                        cur[k] = '\n';
+                        for _ in 0..(op.arg % 6) {
+                            cur.insert(k + 1, ' ');
+                        }
+                    }
+                }
+            }
             _ => {
                 // splice: prefix of this document + suffix of another
                 let o: Vec<char> = other.chars().collect();
@@ -311,6 +368,39 @@ pub fn apply_mutations(base: &str, other: &str, ops: &[MutOp]) -> String {
         }
     }
     cur.into_iter().collect()
+}
+
+/// Deeply nested documents on both sides of 255 / 256 open collections (a byte-sized counter
+/// anywhere on a path shows here and nowhere else).
+pub fn deep_nest_docs() -> Vec<String> {
+    let mut v = vec![];
+    for n in [200usize, 254, 255, 256, 257, 300, 600] {
+        v.push(format!("{}a\n", "- ".repeat(n)));
+        v.push(format!("{}a\n", "? ".repeat(n)));
+        v.push(format!("{}a", "- ? ".repeat(n / 2)));
+        let mut per_line = String::new();
+        for d in 0..n.min(300) {
+            per_line.push_str(&" ".repeat(d));
+            per_line.push_str("k:\n");
+        }
+        v.push(per_line);
+        let mut seq_per_line = String::new();
+        for d in 0..n.min(300) {
+            seq_per_line.push_str(&" ".repeat(d));
+            seq_per_line.push_str("-\n");
+        }
+        seq_per_line.push_str(&" ".repeat(n.min(300)));
+        seq_per_line.push_str("- x\n");
+        v.push(seq_per_line);
+        v.push(format!("{}{}", "[".repeat(n), "]".repeat(n)));
+        v.push(format!("{}x{}", "{a: ".repeat(n), "}".repeat(n)));
+        // block levels around flow levels: together beyond 256, each alone below
+        let f = 250.min(n);
+        v.push(format!("{}{}{}\n", "- ".repeat(n - f + 10), "[".repeat(f), "]".repeat(f)));
+        // a second document that is deep
+        v.push(format!("a\n--- \n{}b\n", "- ".repeat(n)));
+    }
+    v
 }
 
 pub fn seed_docs() -> Vec<&'static str> {
@@ -367,6 +457,7 @@ impl TextPlan {
         }
         if self.corpus {
             v.push(StreamSpec::new("corpus", 1, true, "all 402 yaml-test-suite inputs and the golden seeds, unmodified"));
+            v.push(StreamSpec::new("deepnest", 1, true, &format!("{} documents nested 200..600 levels deep (block sequences, explicit keys, a key per line, flow collections up to and beyond the flow limit, block around flow, alternations): depths on both sides of 255 / 256", deep_nest_docs().len())));
         }
         v
     }
@@ -485,6 +576,14 @@ impl TextPlan {
                 for s in seed_docs() {
                     if let Err(f) = eval_text(ctx, check, s) {
                         fail_text(ctx, check, s, f);
+                    }
+                }
+            }
+            "deepnest" => {
+                for s in deep_nest_docs() {
+                    if let Err(f) = eval_text(ctx, check, &s) {
+                        // no text shrinking: the depth is the point, and the shrinker is quadratic
+                        ctx.record(text_case(&s), &f);
                     }
                 }
             }
